@@ -16,10 +16,11 @@ import Pog.Lemmas.Ops
     ids follow the strategy        full      `derived_id_follows_strategy`, `parsed_operation_fields`
     every recognised pair is an IR operation or a warning            full   `parse_partition`
     … is an IR operation (nothing omitted)                           ✗      `parse_keeps_all_partial`,
-          exact dropped class `dropped_iff`; witnesses `int_status_key_drops_operation_counterexample`,
-          `empty_operation_id_drops_operation_counterexample`; general `int_status_key_operation_is_invisible`
-    JSON ≡ YAML rendering (C19)                                       ✗      `status_key_typing_counterexample`,
-          `status_key_typing_partial`, `unquoted_reading_only_loses_operations`
+          exact dropped class `dropped_iff`; witnesses `bad_status_key_drops_operation_counterexample`,
+          `empty_operation_id_drops_operation_counterexample`; general `bad_status_key_operation_is_invisible`
+    JSON ≡ YAML rendering (C19), unquoted numeric status codes         full   `status_key_typing`, `int_status_key_is_parsed` (F16 repaired)
+          float / bool / null keys                                    ✗      `status_key_typing_counterexample`,
+          `unquoted_reading_only_loses_operations`
     derived (PATH) ids distinct for distinct operations               ✗      `derived_ids_distinct_counterexample`
     final method names pairwise distinct                              ✗      `method_names_distinct_counterexample`
           (both the one-pass diff path and the two-pass direct path), `reachable_exactly_once_partial`
@@ -92,7 +93,7 @@ theorem parse_partition (u : UInfo) (st : Naming) (paths : Paths) :
 theorem dropped_iff (u : UInfo) (st : Naming) (path key : Str) (op : RawOp) :
     opRaises u st path key op = true ↔
       recognised u key = true ∧
-        (op.parseRaises = true ∨ op.responses.any StatusKey.isInt = true ∨
+        (op.parseRaises = true ∨ op.responses.any StatusKey.isBad = true ∨
           (st ≠ .path ∧ op.operationId = some [] ∧ op.responses ≠ [])) :=
   opRaises_iff u st path key op
 
@@ -110,22 +111,31 @@ example : parseSucceeds UInfo.ascii .clean
                      (s "parameters", {}),
                      (s "get", { responses := [.strKey (s "200")] })])] = true := by decide
 
-/-- ✗ witness: the operation with the YAML key `200:` yields NO IR operation and only a warning; generation
-    goes on (and succeeds) without it. -/
-theorem int_status_key_drops_operation_counterexample :
-    parseOps UInfo.ascii .operationId docUnquoted = ([], [⟨s "GET", s "/a", .codeNotStr⟩]) ∧
-    allPairs UInfo.ascii docUnquoted = [(s "/a", s "GET")] := by decide
+/-- The document with a float key `1.5:` (the only kind of non-string key that still raises). -/
+def docBadKey : Paths :=
+  [(s "/a", [(s "get", { operationId := some (s "x"), responses := [.badKey (s "1.5")] })])]
 
-/-- General form, one entry: an operation with a non-string status key is never an IR operation,
+/-- F16 repaired: the operation with the unquoted YAML key `200:` is an IR operation like its quoted twin, no warning. -/
+theorem int_status_key_is_parsed :
+    parseOps UInfo.ascii .operationId docUnquoted = ([⟨s "/a", s "GET", s "x", []⟩], []) ∧
+    parseOps UInfo.ascii .operationId docUnquoted = parseOps UInfo.ascii .operationId docQuoted := by decide
+
+/-- ✗ witness of what remains: a status key that is neither a string nor an integer (`1.5:`, `true:`, `~:`) still drops the
+    operation with only a warning. -/
+theorem bad_status_key_drops_operation_counterexample :
+    parseOps UInfo.ascii .operationId docBadKey = ([], [⟨s "GET", s "/a", .codeNotStr⟩]) ∧
+    allPairs UInfo.ascii docBadKey = [(s "/a", s "GET")] := by decide
+
+/-- General form, one entry: an operation with such a key is never an IR operation,
     whatever the strategy, the key spelling, its id or its other members. -/
-theorem int_status_key_never_parsed (u : UInfo) (st : Naming) (path key : Str) (op : RawOp)
-    (h : op.responses.any StatusKey.isInt = true) (o : IROp) : parseOne u st path key op ≠ .parsed o :=
-  parseOne_int_key u st path key op h o
+theorem bad_status_key_never_parsed (u : UInfo) (st : Naming) (path key : Str) (op : RawOp)
+    (h : op.responses.any StatusKey.isBad = true) (o : IROp) : parseOne u st path key op ≠ .parsed o :=
+  parseOne_bad_key u st path key op h o
 
 /-- General form, whole document: the IR operations are those of the document with every operation that has
-    a non-string status key deleted — such an operation is invisible to everything downstream. -/
-theorem int_status_key_operation_is_invisible (u : UInfo) (st : Naming) (paths : Paths) :
-    (parseOps u st paths).1 = (parseOps u st (eraseIntKeyOps paths)).1 :=
+    such a key deleted — such an operation is invisible to everything downstream. -/
+theorem bad_status_key_operation_is_invisible (u : UInfo) (st : Naming) (paths : Paths) :
+    (parseOps u st paths).1 = (parseOps u st (eraseBadKeyOps paths)).1 :=
   (parseOps_erase u st paths).symm
 
 /-- ✗ witness: `operationId: ""` with a declared response is silently dropped as well
@@ -137,24 +147,22 @@ theorem empty_operation_id_drops_operation_counterexample :
 
 /-! ## C19: quoted vs. unquoted status codes -/
 
-/-- ✗ witness (C19): the JSON reading and the unquoted-YAML reading of the same document give different
-    operations — one operation vs. none. -/
+/-- C19 at full strength for unquoted NUMERIC status codes (F16 repaired): for every document whose status keys are strings or
+    integers, the JSON reading (every key quoted) and the YAML reading give the same operations and the same warnings. -/
+theorem status_key_typing (u : UInfo) (st : Naming) (paths : Paths)
+    (h : paths.all (fun p => p.2.all (fun e => !hasBadKey e.2)) = true) :
+    parseOps u st (quoteKeys paths) = parseOps u st paths :=
+  parseOps_quote u st paths h
+
+/-- `docQuoted` is the JSON reading of `docUnquoted`, and `docUnquoted` (an INTEGER key) satisfies the hypothesis. -/
+example : quoteKeys docUnquoted = docQuoted ∧
+    docUnquoted.all (fun p => p.2.all (fun e => !hasBadKey e.2)) = true := by decide
+
+/-- ✗ what remains: a float / bool / null key is read differently by the two renderings. -/
 theorem status_key_typing_counterexample :
-    parseOps UInfo.ascii .operationId docQuoted ≠ parseOps UInfo.ascii .operationId docUnquoted ∧
-    (parseOps UInfo.ascii .operationId docQuoted).1 = [⟨s "/a", s "GET", s "x", []⟩] ∧
-    (parseOps UInfo.ascii .operationId docUnquoted).1 = [] := by decide
-
-/-- `docQuoted` is the JSON reading of `docUnquoted`. -/
-example : quoteKeys docUnquoted = docQuoted := by decide
-
-/-- PARTIAL (C19): a document without non-string status keys IS its own JSON reading, hence gives the
-    same operations and warnings whichever way it is rendered. -/
-theorem status_key_typing_partial (u : UInfo) (st : Naming) (paths : Paths)
-    (h : paths.all (fun p => p.2.all (fun e => !hasIntKey e.2)) = true) :
-    parseOps u st (quoteKeys paths) = parseOps u st paths := by
-  rw [quoteKeys_of_no_int paths h]
-
-example : docQuoted.all (fun p => p.2.all (fun e => !hasIntKey e.2)) = true := by decide
+    parseOps UInfo.ascii .operationId (quoteKeys docBadKey) ≠ parseOps UInfo.ascii .operationId docBadKey ∧
+    (parseOps UInfo.ascii .operationId (quoteKeys docBadKey)).1 = [⟨s "/a", s "GET", s "x", []⟩] ∧
+    (parseOps UInfo.ascii .operationId docBadKey).1 = [] := by decide
 
 /-- What unquoted keys can do (all inputs): the YAML reading never adds or alters an operation, it only
     LOSES operations relative to the JSON reading of the same document. -/
